@@ -61,6 +61,7 @@ def dc_class(inner: tuple) -> type:
     if cls is None:
         name = "D_" + "_".join(inner)
         cls = make_dataclass(name, [("tag", int), ("v", annotation(inner))], bases=(ArrowSerializableDataclass,), frozen=True)
+        _ = cls.ARROW_SCHEMA      # schema generation is the dataclass's "definition time": unsupported annotations raise here
         _DC_CACHE[inner] = cls
     return cls
 
